@@ -181,6 +181,18 @@ def to_integer(value: JSValue, default: int = 0) -> int:
     return int(n)
 
 
+def array_index(key: str) -> Optional[int]:
+    """The element index a property key denotes, or None.
+
+    Only the canonical decimal spelling of a non-negative integer is an index:
+    "1" is one, while "01", "+1", " 1", "1_0" and digits outside ASCII (all of
+    which int() accepts) are ordinary property names.
+    """
+    if key.isascii() and key.isdigit() and (key == "0" or key[0] != "0"):
+        return int(key)
+    return None
+
+
 def js_pow(base: Union[int, float], exponent: Union[int, float]) -> Union[int, float]:
     """ECMAScript Number::exponentiate (the ** operator and Math.pow).
 
